@@ -1114,7 +1114,7 @@ class DataT:
                 s_e = sb if ka == 'S' else sa
                 s_s = sa if ka == 'S' else sb
                 if s_e != 1:
-                    if s_e != s_s:
+                    if s_e != s_s and s_s != 1:
                         raise PyExc('RuntimeError', 'The size of tensor a (%d) must match the size of tensor b (%d)'
                                     % (sa, sb))
                     raise AnalysisError('unsupported', 'enumerated dim aligned with a spatial axis')
